@@ -32,6 +32,22 @@ Theorem C12_time_series_equals_fresh : forall n cs stored fr,
 Proof. exact step_equals_fresh_full. Qed.
 Print Assumptions C12_time_series_equals_fresh.
 
+(* histories with diverging steps (continue_on_divergence=True).  G12c: no controller with an initial run, or no recycling.
+   Then every step that does not diverge solves with fresh parts and only diverging steps are reported as failed *)
+Theorem C12_divergence_history_partial : forall divs cs stored fr,
+  G12c cs = true -> Forall (fun c => sound c = true) cs -> fresh fr ->
+  Forall2 step_ok divs (run_steps_div divs cs stored false fr).
+Proof. exact run_steps_div_ok. Qed.
+Print Assumptions C12_divergence_history_partial.
+
+(* refuted without G12c: tap controller (initial run) + recyclable ConstControl, one diverging step: the following solvable
+   steps are reported as failed (net._ppc of the diverged initial run is recycled) *)
+Theorem C12_divergence_history_refuted :
+  exists cs divs, Forall (fun c => sound c = true) cs /\
+    ~ Forall2 step_ok divs (run_steps_div divs cs false false all_fresh).
+Proof. exact divergence_poisons_refuted. Qed.
+Print Assumptions C12_divergence_history_refuted.
+
 (* the rule before "fix: ConstControl only claims the recycle flag trafo for transformer parameters" was sound exactly
    on G12a and unsound at (line, length_km): regression witness *)
 Theorem C12_recycle_old_partial : forall e v,
